@@ -72,6 +72,12 @@ func (b *buffer) get(v wireType) {
 		return
 	}
 	b.i += v.width()
+	if b.i > len(b.data) {
+		// the width of a value can exceed what was decoded, e.g. a zero
+		// length string leaves a previously decoded value in place
+		b.i = len(b.data)
+		b.err = ErrMissingData
+	}
 }
 
 func (b *buffer) atEnd() bool {
